@@ -1325,6 +1325,27 @@ def _searchsorted(sorted_seq, values, right=False, **k):
     return torch.from_numpy(np.asarray(out))
 
 
+def _all_const(a):
+    return all(v.is_const() for v in a.reshape(-1))
+
+
+def _unique(x, sorted=True, return_inverse=False, return_counts=False, dim=None):
+    a = _obj_f(x)
+    if not _all_const(a):
+        raise Undecided("torch.unique on symbolic (non-constant) data")
+    t = torch.tensor(np.vectorize(lambda r: float(r.const_value()))(a).astype(float), dtype=torch.float64) if a.size else torch.zeros(a.shape, dtype=torch.float64)
+    r = torch.unique(t, sorted=sorted, return_inverse=return_inverse, return_counts=return_counts, dim=dim)
+    if isinstance(r, tuple):
+        return (ST(_obj_f(r[0])),) + tuple(r[1:])
+    return ST(_obj_f(r))
+
+
+HANDLERS[torch.unique] = _unique
+HANDLERS[torch.functional.unique] = _unique
+HANDLERS["unique"] = _unique
+HANDLERS[torch.Tensor.unique] = _unique
+
+
 def _count_below(seq, v, right):
     # sequence assumed sorted: linear scan with forking comparisons, stop at first failure
     n = 0
